@@ -180,6 +180,20 @@ Theorem C02_guard_step_round :
 Proof. reflexivity. Qed.
 Print Assumptions C02_guard_step_round.
 
+(* ---- the limit sentence on one repeater: X*N with no repeater inside X and a budget M >= 1 left
+   yields exactly min(N, M) copies (the first ones, in order) and uses up that many *)
+Theorem C02_single_repeater_limit :
+  forall (env : cenv) (node : tnode) (r0 : rep) (reps : list rep) (b : Z),
+    node_rep node = Some r0 -> inner_total node = 0 -> 1 <= b ->
+    let n := written_count r0 in
+    let m := Z.min (Z.of_N n) b in
+    unroll_b env reps node b =
+    (flat_map (fun i => tag_copy node (mkRep n i false) (unroll env (mkRep n i false :: reps) (strip_rep node)))
+              (nseq (Z.to_nat m) 0%N),
+     b - m).
+Proof. exact single_repeater_limit. Qed.
+Print Assumptions C02_single_repeater_limit.
+
 (* ---- guard_exhausted: budget <= 0 => every repeater (still running or met later) yields just one
    copy, the one with index 0 of its written count *)
 Theorem C02_guard_exhausted :
